@@ -7,7 +7,8 @@
      one_digit_rs_all : rs_dur text = native_of 0 0 (exact_us unit_secs (u32 (dval ip)) dg)      unit in D H M S W
      one_digit_py_weeks_all : P<ip>.1W is parsed by the pure-Python parser to ip weeks 16 h (exact: 16.8 h), every ip
 
-   (native_of = timedelta's normalisation and range check: the exact value below 10^9 days, OverflowError beyond.)
+   (native_of = timedelta's normalisation and range check: the exact value below 10^9 days, OverflowError beyond — py_dur / rs_dur are the
+   code inside the callers' try blocks; what the callers see is ov_to_ve of it, Proofs/C13Catch.v: a ValueError.)
    Why no real-number reasoning is needed: in both parsers the integer part reaches the constructor as an INTEGER argument
    (Python: int(days) / hours += int(...) ...; Rust: a u32 field of its own); every float operation acts on the fraction dg/10 only
    (dg/10*24, *60, % 1, the carries of rs_spill_*, CPython's accum() on the float argument).  So the float part is a function of the
@@ -344,7 +345,12 @@ Definition getf (u : unit5) (r : rsdur) : Z :=
 Lemma rs_unit_ip u v fr :
   rs_unit (u_time u) (u_char u) v (Some fr) true rsdur0 =
   match rs_unit (u_time u) (u_char u) 0 (Some fr) true rsdur0 with Ok r => Ok (put u v r) | Raise e => Raise e end.
-Proof. destruct u; reflexivity. Qed.
+Proof.
+  destruct u; unfold rs_unit, rs_spill_hours, rs_spill_minutes, put, u_time, u_char, rsdur0;
+  cbn [Z.eqb Pos.eqb c_W c_Y c_M c_D c_H c_S c_T negb orb r_years r_months r_weeks r_days r_hours r_minutes r_seconds r_us Z.add];
+  cbv beta iota zeta;
+  cbn [r_years r_months r_weeks r_days r_hours r_minutes r_seconds r_us Z.add]; reflexivity.
+Qed.
 
 Definition rs_total (r : rsdur) : Z :=
   int_total_us (r_years r) (r_months r) (r_weeks r) (r_days r) (r_hours r) (r_minutes r) (r_seconds r) (r_us r).
@@ -414,3 +420,125 @@ Proof.
   split; [exact (rs_one_digit UM ip sep dg Hi Hs Hd)|]. split; [exact (rs_one_digit US ip sep dg Hi Hs Hd)|].
   exact (rs_one_digit UW ip sep dg Hi Hs Hd).
 Qed.
+
+(* ------------------------------------------------------------------ in the vocabulary of one_digit_ok (Proofs/C13Rej.v) *)
+Ltac Zify.zify_post_hook ::= Z.to_euclidean_division_equations.
+
+Lemma digs_are_digits : forallb is_digit digs = true.
+Proof. reflexivity. Qed.
+
+(* while the largest of the ten values (digit 9) is inside timedelta's range, all twenty texts are parsed to the exact value *)
+Lemma one_digit_ok_of parse time c unit_secs ip :
+  (forall sep dg, sepc sep -> is_digit dg = true ->
+     parse (one_digit_text time ip sep dg c) = native_of 0 0 (exact_us unit_secs (dval ip) dg)) ->
+  digits ip -> 0 < unit_secs -> exact_us unit_secs (dval ip) 57 / US_PER_DAY <= 999999999 ->
+  one_digit_ok parse time c unit_secs ip = true.
+Proof.
+  intros H [_ Hi] Hu Hr. apply dval_nonneg in Hi. unfold one_digit_ok.
+  apply forallb_forall. intros sep Hsep. apply forallb_forall. intros dg Hdg.
+  assert (Hs : sepc sep) by (cbn [In] in Hsep; unfold sepc; intuition).
+  pose proof digs_are_digits as DD. rewrite forallb_forall in DD. specialize (DD dg Hdg).
+  rewrite (H sep dg Hs DD). apply is_digit_range in DD.
+  set (x := exact_us unit_secs (dval ip) dg).
+  assert (H0 : 0 <= x) by (unfold x, exact_us; nia).
+  assert (Hle : x <= exact_us unit_secs (dval ip) 57) by (unfold x, exact_us; nia).
+  assert (H1 : x / US_PER_DAY <= 999999999).
+  { apply Z.le_trans with (2 := Hr). apply Z.div_le_mono; [reflexivity | exact Hle]. }
+  destruct (td_norm_ok x 0 0 H0 H1) as [d [s [u [E Eo]]]].
+  unfold native_of. rewrite E. cbn [bind]. rewrite Eo. unfold nearestb, x, exact_us. cbn [Z.eqb andb]. apply Z.leb_le. lia.
+Qed.
+
+Theorem one_digit_ok_py ip : digits ip ->
+  (exact_us 86400 (dval ip) 57 / US_PER_DAY <= 999999999 -> one_digit_ok py_dur false c_D 86400 ip = true) /\
+  (exact_us 3600 (dval ip) 57 / US_PER_DAY <= 999999999 -> one_digit_ok py_dur true c_H 3600 ip = true) /\
+  (exact_us 60 (dval ip) 57 / US_PER_DAY <= 999999999 -> one_digit_ok py_dur true c_M 60 ip = true) /\
+  (exact_us 1 (dval ip) 57 / US_PER_DAY <= 999999999 -> one_digit_ok py_dur true c_S 1 ip = true).
+Proof.
+  intros Hi. repeat split; intros Hr; (apply one_digit_ok_of; [|exact Hi|lia|exact Hr]); intros sep dg Hs Hd.
+  - apply py_one_digit_D; assumption.
+  - apply py_one_digit_H; assumption.
+  - apply py_one_digit_M; assumption.
+  - apply py_one_digit_S; assumption.
+Qed.
+
+Theorem one_digit_ok_rs ip : digits ip -> dval ip < 4294967296 ->
+  (exact_us 86400 (dval ip) 57 / US_PER_DAY <= 999999999 -> one_digit_ok rs_dur false c_D 86400 ip = true) /\
+  (exact_us 3600 (dval ip) 57 / US_PER_DAY <= 999999999 -> one_digit_ok rs_dur true c_H 3600 ip = true) /\
+  (exact_us 60 (dval ip) 57 / US_PER_DAY <= 999999999 -> one_digit_ok rs_dur true c_M 60 ip = true) /\
+  (exact_us 1 (dval ip) 57 / US_PER_DAY <= 999999999 -> one_digit_ok rs_dur true c_S 1 ip = true) /\
+  (exact_us 604800 (dval ip) 57 / US_PER_DAY <= 999999999 -> one_digit_ok rs_dur false c_W 604800 ip = true).
+Proof.
+  intros Hi Hsm.
+  assert (Eu : u32 (dval ip) = dval ip) by (apply u32_small; split; [apply dval_nonneg; apply Hi | exact Hsm]).
+  repeat split; intros Hr; (apply one_digit_ok_of; [|exact Hi|lia|exact Hr]); intros sep dg Hs Hd; rewrite <- Eu.
+  - exact (rs_one_digit UD ip sep dg Hi Hs Hd).
+  - exact (rs_one_digit UH ip sep dg Hi Hs Hd).
+  - exact (rs_one_digit UM ip sep dg Hi Hs Hd).
+  - exact (rs_one_digit US ip sep dg Hi Hs Hd).
+  - exact (rs_one_digit UW ip sep dg Hi Hs Hd).
+Qed.
+
+(* ------------------------------------------------------------------ pure Python, weeks: P<ip>.1W is ip weeks 16 h for EVERY ip (exact: 16.8 h) *)
+Lemma py_args_W1 ip :
+  py_args (mk_dmatch (Some (mk_tok ip (Some [49]) 1)) None None None false None None None) =
+  Ok (mk_pyargs 0 0 (dval ip) 0 (NInt 16) (NInt 0) (NInt 0) 0).
+Proof.
+  open_args. generalize (dval ip). intro V. vm_compute. reflexivity.
+Qed.
+
+Lemma py_one_digit_W1 ip sep : digits ip -> sepc sep ->
+  py_dur (one_digit_text false ip sep 49 c_W) = native_of 0 0 (dval ip * 604800000000 + 57600000000).
+Proof.
+  intros Hi Hs. apply py_dur_of_native. unfold one_digit_text. cbn [app]. unfold py_native.
+  rewrite (match_W ip sep 49 Hi Hs eq_refl), py_args_W1. cbn [bind a_years a_months a_weeks a_days a_hours a_minutes a_seconds a_us].
+  rewrite duration_native_int. cbv zeta.
+  replace (int_total_us 0 0 (dval ip) 0 16 0 0 0) with (dval ip * 604800000000 + 57600000000)
+    by (unfold int_total_us, US_PER_DAY; ring).
+  reflexivity.
+Qed.
+
+(* whatever the integer part: outside timedelta's range the constructor raises, inside the result is 0.8 h short *)
+Theorem one_digit_py_weeks_all ip : digits ip -> one_digit_ok py_dur false c_W 604800 ip = false.
+Proof.
+  intros Hi. apply not_true_is_false. intros H. unfold one_digit_ok in H.
+  rewrite forallb_forall in H. specialize (H c_dot (or_introl eq_refl)).
+  rewrite forallb_forall in H. specialize (H 49 ltac:(cbn [In]; auto)).
+  rewrite (py_one_digit_W1 ip c_dot Hi (or_introl eq_refl)) in H.
+  unfold native_of, td_norm in H.
+  destruct ((_ <? -999999999) || (999999999 <? _)); cbn [bind] in H; [discriminate|].
+  cbn [Z.eqb andb] in H. unfold nearestb, obs_us in H. apply Z.leb_le in H.
+  destruct Hi as [_ Hi]. apply dval_nonneg in Hi. unfold US_PER_DAY in H. lia.
+Qed.
+
+(* ------------------------------------------------------------------ the hypotheses are satisfiable; the bounds are sharp *)
+(* "P12.5D" = 12 d 12 h, "PT007,3H" = 7 h 18 min, "P3.5W" (compiled) = 24 d 12 h *)
+Example one_digit_sat :
+  digits [49; 50] /\ sepc c_dot /\ sepc c_comma /\ is_digit 53 = true /\
+  one_digit_text false [49; 50] c_dot 53 c_D = [80; 49; 50; 46; 53; 68] /\
+  py_dur (one_digit_text false [49; 50] c_dot 53 c_D) = Ok (0, 0, 12, 43200, 0) /\
+  py_dur (one_digit_text true [48; 48; 55] c_comma 51 c_H) = Ok (0, 0, 0, 26280, 0) /\
+  rs_dur (one_digit_text false [51] c_dot 53 c_W) = Ok (0, 0, 24, 43200, 0) /\
+  exact_us 86400 (dval [49; 50]) 57 / US_PER_DAY <= 999999999.
+Proof.
+  repeat split; try discriminate; try reflexivity; try (left; reflexivity); try (right; reflexivity);
+    try (vm_compute; reflexivity); vm_compute; discriminate.
+Qed.
+
+(* just outside timedelta's range the exact value is not returned (OverflowError): P999999999.9D is the last good one *)
+Example one_digit_range_sharp :
+  py_dur (one_digit_text false [57; 57; 57; 57; 57; 57; 57; 57; 57] c_dot 57 c_D) = Ok (0, 0, 999999999, 77760, 0) /\
+  py_dur (one_digit_text false [49; 48; 48; 48; 48; 48; 48; 48; 48; 48] c_dot 48 c_D) = Raise E_OverflowError /\
+  rs_dur (one_digit_text false [49; 48; 48; 48; 48; 48; 48; 48; 48; 48] c_dot 48 c_D) = Raise E_OverflowError.
+Proof. repeat split; vm_compute; reflexivity. Qed.
+
+(* beyond u32 the compiled parser wraps: PT4294967297.5S is 1.5 s *)
+Example one_digit_u32_sharp :
+  rs_dur (one_digit_text true [52; 50; 57; 52; 57; 54; 55; 50; 57; 55] c_dot 53 c_S) = Ok (0, 0, 0, 1, 500000) /\
+  py_dur (one_digit_text true [52; 50; 57; 52; 57; 54; 55; 50; 57; 55] c_dot 53 c_S) = Ok (0, 0, 49710, 23297, 500000).
+Proof. split; vm_compute; reflexivity. Qed.
+
+Print Assumptions one_digit_py_all.
+Print Assumptions one_digit_rs_all.
+Print Assumptions one_digit_ok_py.
+Print Assumptions one_digit_ok_rs.
+Print Assumptions one_digit_py_weeks_all.
